@@ -498,5 +498,14 @@ Corollary pluq_rec_spec base cutoff A P0 Q0 :
   pluq_spec A (pluq_rec base cutoff A P0 Q0).
 Proof. intros Hb HA HP HQ. unfold pluq_rec. apply pluq_of_ple_spec. now apply ple_rec_spec. Qed.
 
+(** the same with the quantifiers in the order of DESIGN.md (C03_rec) *)
+Theorem ple_rec_spec_all : forall base, base_ok base -> forall cutoff A P0 Q0,
+  wf A -> length P0 = nr A -> length Q0 = nc A -> ple_spec A (ple_rec base cutoff A P0 Q0).
+Proof. intros base Hb cutoff A P0 Q0. now apply ple_rec_spec. Qed.
+
+Theorem pluq_rec_spec_all : forall base, base_ok base -> forall cutoff A P0 Q0,
+  wf A -> length P0 = nr A -> length Q0 = nc A -> pluq_spec A (pluq_rec base cutoff A P0 Q0).
+Proof. intros base Hb cutoff A P0 Q0. now apply pluq_rec_spec. Qed.
+
 Example ple_rec_spec_hyps : base_ok ple_naive.
 Proof. exact base_ok_naive. Qed.
